@@ -315,16 +315,27 @@ func cmdRapidgen(args []string) {
 					ev["outcome"], ev["note"] = "panic", "walking the output: "+trunc(pn, 200)
 					break
 				}
-				if len(nodes) > 400 {
-					// keep the event small: only nodes with a breach, plus the count
+				if len(nodes) > 300 {
+					// keep the event small: one representative per distinct fact vector (depth
+					// clamped to the buckets that matter: below / at / above the nesting limit)
+					seen := map[node]bool{}
 					var keep []node
 					for _, nd := range nodes {
-						if nd != (node{Depth: nd.Depth}) {
+						k := nd
+						switch {
+						case k.Depth < 10:
+							k.Depth = 0
+						case k.Depth == 10:
+						default:
+							k.Depth = 11
+						}
+						if !seen[k] {
+							seen[k] = true
 							keep = append(keep, nd)
 						}
 					}
 					ev["nodeCount"] = len(nodes)
-					nodes = append(keep, nodes[:50]...)
+					nodes = keep
 				}
 				ev["nodes"] = nodes
 				// the reference marshaller accepts it and it round-trips through the wire
